@@ -29,6 +29,16 @@ impl Identifier {
         Self(s)
     }
 
+    /// Creates an identifier from text that is not known to be valid (e.g. a name given in the program), or `None` if it contains a period
+    pub fn try_new<S: Into<String>>(s: S) -> Option<Self> {
+        let s = s.into();
+        if s.contains('.') {
+            None
+        } else {
+            Some(Self(s))
+        }
+    }
+
     pub fn anonymous(index: usize) -> Self {
         Identifier::new(format!("$scope_{}", index))
     }
